@@ -160,9 +160,9 @@ func runDiff(ops []Op) diffOut {
 				}
 				out.key = classify(op, class, writer, symptom, gm, want, stored)
 			case nm == nw:
-				out.key = fmt.Sprintf("C13/redis/%s/on=%s/memory-and-model=%s/redis=%s", op.ttlTag(), class, short(nm), short(nr))
+				out.key = fmt.Sprintf("C13/redis/%s/on=%s/memory-and-model=%s/redis=%s", opTag(op), coarse(class, gr, want), shortForm(nm), shortForm(nr))
 			default:
-				out.key = fmt.Sprintf("C13/diff/%s/on=%s/memory=%s/redis=%s", op.ttlTag(), class, short(nm), short(nr))
+				out.key = fmt.Sprintf("C13/diff/%s/on=%s/memory=%s/redis=%s", opTag(op), coarse(class, gm, gr), shortForm(nm), shortForm(nr))
 			}
 			out.detail = fmt.Sprintf("step %d %s on %s key (lifetime set by %q): memory %s, redis %s, model %s; history: %s",
 				i, op, class, writer, nm, nr, nw, histString(ops[:i+1]))
@@ -182,11 +182,14 @@ func runDiff(ops []Op) diffOut {
 	return out
 }
 
-func short(s string) string {
-	if i := strings.Index(s, ":"); i >= 0 && len(s) > i+12 {
-		return s[:i+12] + "~"
+// shortForm keeps the answer class and drops the payload ("ok:true" stays, "ok:[...]" becomes "ok:value").
+func shortForm(s string) string {
+	switch {
+	case strings.HasPrefix(s, "err:"), s == "ok", s == "ok:true", s == "ok:false", s == "ok:[]", s == "ok:{}",
+		s == "ok:more-than-2s", s == "ok:none-or-short":
+		return s
 	}
-	return s
+	return "ok:value"
 }
 
 func finishDiff(t vkit.TB, c Case, out diffOut) {
